@@ -65,7 +65,7 @@ def b_inclass(ctx):
             continue
         for n in range(ctx.N + 1):
             ctx.claim(n, {"t": "supp", "pi": ctx.src, "v": v, "vals": [F(x) for x in vals], "tag": "inclass:" + v,
-                          "start": P["s0"].get(v, 0)})
+                          "start": P["s0"].get(v, 0), "exempt": True})
 
 
 def post(ctx):
